@@ -69,6 +69,8 @@ def plan(tier, seed):
             for i in range(n):
                 units.append({'kind': 'triples', 'ver': ver, 'first': i})
         units.append({'kind': 'whitespace', 'ver': ver})
+        units.append({'kind': 'postfix', 'ver': ver})
+        units.append({'kind': 'nesting', 'ver': ver})
     seeds = [0, 1, 2, 3, seed % (2 ** 32)] if tier == 'quick' else list(range(32)) + [seed % (2 ** 32)]
     for s in sorted(set(seeds)):
         units.append({'kind': 'hashseed', 'seed': s})
@@ -249,6 +251,10 @@ def run_unit(unit, tier, acc):
                     'reference_grouping': _safe_paren(chain_tokens((first, its[0]), OPERANDS[:3]), ver)}, limit=1)
     elif k == 'whitespace':
         run_whitespace(unit['ver'], tier, acc)
+    elif k == 'postfix':
+        run_postfix_ws(unit['ver'], tier, acc)
+    elif k == 'nesting':
+        run_nesting(unit['ver'], tier, acc)
     else:
         run_hashseed(unit['seed'], acc)
 
@@ -313,6 +319,159 @@ def run_whitespace(ver, tier, acc):
     acc.sample({'version': ver, 'base': '$a + $b * .', 'variant': '$a(: c :)+ $b * .'}, limit=1)
 
 
+POSTFIX = {
+    '1.0': ['$a [ 1 ]', 'a [ 1 ] [ 2 ]', 'concat ( "a" , "b" )', 'a / b [ 1 ]', '. / a', 'a // b', '@ a', 'child :: a', '( a | b ) [ 1 ]',
+            '- 1', 'a [ b = 1 ]', 'count ( a ) + 1', '/ a', '// a', 'a / @ b', 'processing-instruction ( "x" )', 'a / text ( )', '.. / a'],
+    '2.0': ['for $x in ( 1 , 2 ) return $x', 'if ( $a ) then 1 else 2', 'some $x in $a satisfies $x', '1 instance of xs:integer ?',
+            '$a cast as xs:integer ?', '$a treat as item ( ) *', '$a instance of element ( a ) +', '( 1 , 2 ) [ 1 ]', 'a / ( b , c )',
+            '$a castable as xs:string ?', 'every $x in $a , $y in $b satisfies $x', '( )', 'a / element ( b )', '$a instance of empty-sequence ( )',
+            'xs:integer ( "1" )', '( 1 to 3 ) [ . gt 1 ]'],
+    '3.0': ['$f ( 1 )', 'function ( $x ) { $x }', 'let $x := 1 return $x', 'abs # 1', '$f ( 1 ) ( 2 )', '"a" || "b"', '$a ! name ( )',
+            'function ( $x as xs:integer ) as xs:integer { $x }', '$f ( ? )', 'let $x := 1 , $y := 2 return $x', '( $f ) ( 1 )',
+            '$a instance of function ( * )', '$a instance of function ( item ( ) ) as item ( ) *', 'Q{u}a', 'math:pi ( )'],
+    '3.1': ['$m ? a', '$m ? a ? b', '$m [ 1 ] ? a', '$m ? 1', '$m ? *', '$m ? ( 1 )', '$m ( "a" ) ? b', 'map { "a" : 1 }', 'array { 1 , 2 }',
+            '[ 1 , 2 ]', '$m ( "a" )', '$a => count ( )', '$a => concat ( "x" ) => string-length ( )', '- $m ? a * 2', '$m ? a [ 1 ]',
+            'map { "a" : 1 } ? a', '[ 1 , 2 ] ? 1', '$a instance of map ( * )', '$a instance of array ( xs:integer ) ?',
+            '$a instance of map ( xs:string , item ( ) * )', '$m ? a ( 1 )', '$m ! ? a', '( $m , $m ) ? a'],
+}
+
+
+def postfix_corpus(ver):
+    out = []
+    for v in VERSIONS:
+        out += POSTFIX[v]
+        if v == ver:
+            break
+    return out
+
+
+def run_postfix_ws(ver, tier, acc):
+    """whitespace / comment placement at every gap of expressions with postfix and primary syntax"""
+    fillers = FILLERS if ver != '1.0' else ['', '\n', '  ', '\t']
+    for base_src in postfix_corpus(ver):
+        words = base_src.split(' ')
+        base = impl_parse(ver, base_src)
+        acc.ev()
+        if base[0] != 'ok':
+            acc.outcome('postfix-base:' + base[0])
+            if base[0] == 'escape' or base[1] == 'XPST0003':
+                acc.violation('C04|postfix-corpus-rejected|%s' % ver, '%s: %r' % (ver, base_src), {'result': repr(base[:2])}, {'kind': 'ws', 'ver': ver, 'src': base_src, 'base': base_src})
+            continue
+        acc.case(True)
+        gaps = len(words) - 1
+        variants = []
+        for gi in range(gaps):
+            for f in fillers:
+                if f == '' and needs_space(words[gi], words[gi + 1]):
+                    continue
+                if f == '' and (words[gi] in ('-', '*', '?', ':') or words[gi + 1] in ('-', '*', ':', '::', ':=', '?', '#')):
+                    continue          # a lexical-structure question (longest token), not one of insignificant whitespace
+                parts = []
+                for j, w in enumerate(words):
+                    parts.append(w)
+                    if j < gaps:
+                        parts.append(f if j == gi else ' ')
+                variants.append((gi, f, ''.join(parts)))
+        for f in fillers[1:]:
+            variants.append((-1, f, f.join(words)))
+        for gi, f, v in variants:
+            r = impl_parse(ver, v)
+            acc.ev()
+            acc.cmp()
+            acc.outcome('ws:' + ('same' if r[0] == 'ok' and r[1] == base[1] else 'diff'))
+            if r[0] != 'ok' or r[1] != base[1]:
+                gapkind = 'comment' if '(:' in v else 'whitespace'
+                where = 'uniform' if gi < 0 else 'between %r and %r' % (words[gi], words[gi + 1])
+                acc.violation('C04|%s-changes-parse|%s|postfix:%s' % (gapkind, ver, where), '%s: %r vs %r' % (ver, v, base_src),
+                              {'base_tree': base[1][:200], 'variant': repr(r[:2])[:200]}, {'kind': 'ws', 'ver': ver, 'src': v, 'base': base_src})
+    acc.sample({'version': ver, 'base': POSTFIX[ver][0], 'variant': POSTFIX[ver][0].replace(' ', '(: c :)', 1)}, limit=1)
+
+
+def nest_shapes(leaves):
+    """all full binary trees over the ordered leaves"""
+    if len(leaves) == 1:
+        return [leaves[0]]
+    out = []
+    for k in range(1, len(leaves)):
+        for l in nest_shapes(leaves[:k]):
+            for r in nest_shapes(leaves[k:]):
+                out.append((l, r))
+    return out
+
+
+def nest_render(t, ops, extra):
+    """fully parenthesised rendering: every inner node in parentheses; `extra` doubles the parentheses of the node numbered `extra`"""
+    counter = [0]
+    opit = iter(ops)
+
+    def go(x):
+        if isinstance(x, str):
+            return x
+        left = go(x[0])
+        op = next(opit)
+        right = go(x[1])
+        me = counter[0]
+        counter[0] += 1
+        txt = '(%s %s %s)' % (left, op, right)
+        return '(%s)' % txt if me == extra else txt
+    return go(t)
+
+
+def run_nesting(ver, tier, acc):
+    """source text of nested parenthesised expressions re-parses to the same tree and value"""
+    from elementpath import XPathContext, ElementPathError
+    opsets = [('+', '-', '*')] if ver == '1.0' else [('+', '-', '*'), ('-', 'idiv', '+')]
+    ops_all = sorted(set(o for st in opsets for o in st))
+    leaves = ['7', '2', '3', '5']
+    wrappers = ['%s', '- %s', '1 - %s', '%s * 2', '2 * %s', '(%s)', '%s - %s'] + (['abs(%s)', '(%s)[1]', '(%s, 1)[1]'] if ver != '1.0' else ['number(%s)', 'string(%s)'])
+    n = 0
+    for nl in (2, 3, 4):
+        for shape in nest_shapes(leaves[:nl]):
+            for ops in itertools.product(ops_all, repeat=nl - 1):
+                for extra in [None] + list(range(nl - 1)):
+                    body = nest_render(shape, ops, extra)
+                    for w in wrappers:
+                        src = w.replace('%s', body)
+                        n += 1
+                        acc.ev()
+                        a = impl_parse(ver, src)
+                        if a[0] != 'ok':
+                            acc.outcome('nest-base:' + a[0])
+                            continue
+                        acc.case(nl > 2)
+                        acc.cmp()
+                        s2 = a[2].source
+                        b = impl_parse(ver, s2)
+                        case = {'kind': 'nest', 'ver': ver, 'src': src}
+                        if b[0] != 'ok' or b[1] != a[1]:
+                            acc.violation('C04|source-roundtrip-tree|%s|nested-parentheses' % ver, '%s: source of %r is %r' % (ver, src, s2),
+                                          {'tree': a[1][:200], 'reparsed': repr(b[:2])[:200]}, case)
+                            continue
+                        try:
+                            va = a[2].evaluate(XPathContext(root=None, item=1))
+                            vb = b[2].evaluate(XPathContext(root=None, item=1))
+                        except ElementPathError:
+                            continue
+                        acc.outcome('nest:ok')
+                        if repr(va) != repr(vb):
+                            acc.violation('C04|source-roundtrip-value|%s|nested-parentheses' % ver, '%s: source %r' % (ver, s2), {'a': repr(va), 'b': repr(vb)}, case)
+    # node-set forms
+    if ver != '1.0' or True:
+        for src in ['((a | b) | (c))[1]', '((a | b) | (c | d))', '(a | (b | c))[2]', '((a)/(b))', '((a | b)/(c | d))[1]', '(a[1] | (b)[1])', '((a)[1])[1]']:
+            a = impl_parse(ver, src)
+            acc.ev()
+            if a[0] != 'ok':
+                continue
+            acc.cmp()
+            acc.case(True)
+            s2 = a[2].source
+            b = impl_parse(ver, s2)
+            if b[0] != 'ok' or b[1] != a[1]:
+                acc.violation('C04|source-roundtrip-tree|%s|nested-parentheses' % ver, '%s: source of %r is %r' % (ver, src, s2),
+                              {'tree': a[1][:200], 'reparsed': repr(b[:2])[:200]}, {'kind': 'nest', 'ver': ver, 'src': src})
+    acc.sample({'version': ver, 'expression': '2 * ((7 - 2) - (3 + 5))', 'rule': 'parse(parse(e).source).tree == parse(e).tree'}, limit=1)
+
+
 def table_digest():
     """digest of expression -> tree/code over the pair set of every version (run in a subprocess per hash seed)"""
     h = hashlib.sha256()
@@ -366,6 +525,8 @@ def replay(case, acc):
         acc.ev()
         if a[:2] != b[:2]:
             acc.violation('C04|whitespace-changes-parse|replay', case['src'], {'a': repr(a[:2])[:200], 'b': repr(b[:2])[:200]}, case)
+    elif case.get('kind') == 'nest':
+        run_nesting(case['ver'], 'quick', acc)
     elif case.get('kind') == 'hashseed':
         for s in (0, 1, 2, 3):
             run_hashseed(s, acc)
